@@ -205,7 +205,7 @@ fn family(env: &Env, rng: &mut Rng, j: usize) -> Vec<String> {
 
 pub fn run(env: &Env) -> Rec {
     let mut rec = Rec::new();
-    let n = env.n(30_000, 1_500_000);
+    let n = env.n(30_000, 400_000);
     let per = 50usize;
     let r = par(n.div_ceil(per), |c, rec| {
         let mut rng = Rng::stream(env.seed, 0x07_0000 + c as u64);
